@@ -57,7 +57,7 @@ CHILDREN = [
 
 
 def probe_values(default_marker):
-    return [UNBOUND, None, default_marker, '', 'a<b&"c\'', 0, 7, [10, 20, 30], [], True]
+    return [UNBOUND, None, default_marker, '', 'a<b&"c\'', 0, 7, [10, 20, 30], [], True, {'title': 't<'}]
 
 
 class Run:
@@ -330,7 +330,12 @@ class Run:
             return self.default_marker
 
         def rlen(k=0):
-            for n, v in self.values.items():
+            m = re.search(r'tal:repeat="[^" ]+ e(\d+)"', job['template'])
+            order = ([int(m.group(1))] if m else []) + list(self.values)
+            for n in order:
+                v = self.values.get(n, UNBOUND)
+                if n == (int(m.group(1)) if m else None) and (v is UNBOUND or v is None):
+                    return 0
                 if v is UNBOUND or v is None:
                     continue
                 try:
